@@ -154,6 +154,20 @@ func init() {
 				case strings.HasPrefix(pat, "^HTTP/1"):
 					el := sel(inner, "1")
 					s.assume(implies(app(">", n, "0"), and(app("digits", el), eq(app("blen", el), "3"))))
+					// named meaning of this exact pattern: the line is an HTTP/1.x status line and group 1 its code
+					s.c.declare("statusCode", "(declare-fun statusCode (Str) Str)")
+					s.c.declare("isStatusLine", "(declare-fun isStatusLine (Str) Bool)")
+					s.assume(implies(app(">", n, "0"), and(app("isStatusLine", in), eq(el, app("statusCode", in)))))
+				case pat == "^(?i:content-type):[ \\t\\r]*(.*?)[ \\t\\r]*\\n$" || pat == "^(?i:location):[ \\t\\r]*(.*?)[ \\t\\r]*\\n$":
+					// named meaning of these exact patterns: the line is the header of that name (case-insensitive,
+					// anchored at the start of the line) and group 1 its trimmed value
+					name := "content-type"
+					if strings.Contains(pat, "location") {
+						name = "location"
+					}
+					s.c.declare("headerLine", "(declare-fun headerLine (Str Str) Bool)")
+					s.c.declare("headerValue", "(declare-fun headerValue (Str) Str)")
+					s.assume(implies(app(">", n, "0"), and(app("headerLine", in, s.c.lit(name)), eq(sel(inner, "1"), app("headerValue", in)))))
 				case strings.HasPrefix(pat, "(?s)^(([!#"):
 					// token characters only: groups are clean whatever surrounds them
 					for k := 1; k <= 3; k++ {
